@@ -99,7 +99,14 @@ const FIXED_NUL: [&str; 10] = [
     "(?s)b.c",
 ];
 
-const FIXED: [&str; 22] = [
+const FIXED: [&str; 28] = [
+    // case folding, byte classes, invalid UTF-8 next to the terminator
+    "(?i)A\\nB",
+    "(?-u:\\xff)\\n",
+    "(?i:X)*\\n",
+    "(?-u:[^a])\\n(?-u:.)",
+    "\\n\\pL",
+    "(?i)\u{e9}\\n",
     // an empty match on a line, then a non-empty match later on the same line that crosses the terminator
     "^\\b|b\\nc",
     "^|b\\nc",
@@ -134,9 +141,16 @@ fn gen_input(rng: &mut Rng, lt: Lt) -> Vec<u8> {
         Lt::Crlf => b"aabbxc \r",
         Lt::Lf => b"aabbxc ,",
     };
+    // now and then bytes that are not ASCII: invalid UTF-8 and a two-byte letter
+    let extra: [&[u8]; 4] = [b"\xff", "\u{e9}".as_bytes(), "\u{c9}".as_bytes(), b"\x80"];
     for i in 0..n {
         for _ in 0..rng.range(0, 3) {
-            out.push(*rng.pick(alpha));
+            if rng.chance(1, 12) {
+                let e: &[u8] = *rng.pick(&extra[..]);
+                out.extend_from_slice(e);
+            } else {
+                out.push(*rng.pick(alpha));
+            }
         }
         if i + 1 < n || rng.chance(3, 4) {
             match lt {
@@ -164,11 +178,25 @@ fn gen_case(rng: &mut Rng) -> C13 {
         b: if noctx { 0 } else { gen_ctx(rng, 3) },
         pt: !noctx && rng.chance(1, 6),
         ln: rng.chance(3, 4),
-        son: false,
+        // stop_on_nonmatch plays no role in multi-line search (and is honoured when the search is downgraded)
+        son: rng.chance(1, 6),
         ml: true,
-        bin: Bin::None,
+        bin: if rng.chance(1, 8) {
+            let b = *rng.pick(&[if lt == Lt::Nul { b'x' } else { 0u8 }, b'x', 0xff]);
+            if rng.chance(1, 2) {
+                Bin::Quit(b)
+            } else {
+                Bin::Convert(b)
+            }
+        } else {
+            Bin::None
+        },
     };
-    let input = gen_input(rng, lt);
+    let mut input = gen_input(rng, lt);
+    if cfg.bin != Bin::None && rng.chance(1, 2) && lt != Lt::Nul {
+        let at = rng.range(0, input.len());
+        input.insert(at, 0);
+    }
     let pat = if lt == Lt::Nul {
         match rng.below(10) {
             0 | 1 => Pat::Lit { needle: [&b"a\0b"[..], b"x\0", b"\0", b"b\0c", b"a\0"][rng.below(5)].to_vec() },
@@ -218,7 +246,20 @@ fn check<M: Matcher>(line: &str, c: &C13, m: &M, msx: &str, head: &str, ctx: &mu
     ctx.files += 1;
     let f = scratch_file(&ctx.scratch, &format!("c13-{}.txt", ctx.files % 64), &c.input);
     strategies.push(Strategy::Path(f));
+    // Once binary detection has seen its byte the strategies legitimately differ (a slice is sniffed as a whole before
+    // the search, a reader notices the byte when the buffer that holds it is filled; SliceByLine reports the offset of
+    // the byte as byte count, ReadByLine the bytes consumed): C14 / C02 territory. The strategy comparison is then
+    // skipped, the slice strategy is still compared with the model.
+    let bin_seen = imp.contains(";bin ");
+    if bin_seen {
+        ctx.rep.branch("binary:strategy-comparison-skipped");
+    }
     for st in &strategies {
+        // a search downgraded to line-by-line is C02's subject (and shows F24 there: a line judged in buffer context
+        // depends on what shares the buffer with it, hence on the strategy): compared with the model only
+        if bin_seen || path != "multi" {
+            break;
+        }
         let other = run_with(&mut s, m, &c.input, Script::All, st).0;
         if other != imp {
             ctx.rep.violation(Violation {
@@ -234,6 +275,18 @@ fn check<M: Matcher>(line: &str, c: &C13, m: &M, msx: &str, head: &str, ctx: &mu
     if path != "multi" {
         ctx.rep.branch("downgraded-to-line-by-line");
         return;
+    }
+    // binary detection (C14's property) changes what is delivered once its byte occurs: such cases stop at impl = model
+    let bin_byte = match cfg.bin {
+        Bin::None => None,
+        Bin::Quit(b) | Bin::Convert(b) => Some(b),
+    };
+    if let Some(b) = bin_byte {
+        ctx.rep.branch("binary-detection-on");
+        if c.input.contains(&b) {
+            ctx.rep.branch("binary-byte-present:only-impl-vs-model");
+            return;
+        }
     }
     let spec = ctx.drv.ask(&format!("c13.spec {} {} {}", csx, msx, inp));
     let guard = ctx.drv.ask(&format!("c13.guard {} {} {}", csx, msx, inp));
@@ -434,6 +487,11 @@ fn run_bom_case(line: &str, ctx: &mut Ctx) {
         }
         Some((Cfg::parse_token(p[1])?, p[2] == "s1", String::from_utf8(unhex(p[3])?).ok()?, unhex(p[4])?, p[5].to_string()))
     })();
+    let parsed = parsed.map(|(mut cfg, d, p, t, e)| {
+        // decoding goes through the reader, where binary detection acts on the buffer (C14): switched off here
+        cfg.bin = Bin::None;
+        (cfg, d, p, t, e)
+    });
     let Some((cfg0, dotall, pattern, text, enc)) = parsed else {
         ctx.rep.violation(Violation {
             kind: "impl_vs_model".into(),
@@ -456,6 +514,8 @@ fn run_bom_case(line: &str, ctx: &mut Ctx) {
     let raw: Vec<u8> = match enc.as_str() {
         "utf8" => [&b"\xEF\xBB\xBF"[..], &text[..]].concat(),
         "utf16le" => std::iter::once([0xFFu8, 0xFE]).chain(text.iter().map(|&b| [b, 0])).flatten().collect(),
+        // no mark: the encoding is given explicitly (-E utf-16le)
+        "utf16le-E" => text.iter().flat_map(|&b| [b, 0]).collect(),
         _ => std::iter::once([0xFEu8, 0xFF]).chain(text.iter().map(|&b| [0, b])).flatten().collect(),
     };
     // what the searcher searches after decoding (BOM sniffing on, as in ripgrep): the mark is stripped, UTF-16 is
@@ -476,8 +536,11 @@ fn run_bom_case(line: &str, ctx: &mut Ctx) {
     ctx.rep.branch(&format!("bom:{}", enc));
     ctx.files += 1;
     let f = scratch_file(&ctx.scratch, &format!("c13-bom-{}.txt", ctx.files % 64), &raw);
-    let mut s = cfg.searcher_bom(false);
-    let mut sm = cfg.searcher_bom(true);
+    let (mut s, mut sm) = if enc == "utf16le-E" {
+        (cfg.searcher_enc("utf-16le", false), cfg.searcher_enc("utf-16le", true))
+    } else {
+        (cfg.searcher_bom(false), cfg.searcher_bom(true))
+    };
     let runs = [
         ("slice", run_with(&mut s, &m, &raw, Script::All, &Strategy::Slice).0),
         ("reader(1)", run_with(&mut s, &m, &raw, Script::All, &Strategy::Reader(1)).0),
@@ -505,7 +568,7 @@ fn gen_bom_case(rng: &mut Rng) -> String {
             // the text must survive the round trip through UTF-16: ASCII only
             let text: Vec<u8> = c.input.iter().map(|&b| if b < 0x80 { b } else { b'a' }).collect();
             // a file that is nothing but a 2-byte mark is too short for BOM sniffing (3 bytes are peeked): not generated
-            let enc = if text.is_empty() { "utf8" } else { *rng.pick(&["utf8", "utf16le", "utf16be"]) };
+            let enc = if text.is_empty() { "utf8" } else { *rng.pick(&["utf8", "utf16le", "utf16be", "utf16le-E"]) };
             return format!("mlbom {} s{} {} {} {}", c.cfg.token(), *dotall as u8, hex(pattern.as_bytes()), hex(&text), enc);
         }
     }
